@@ -806,6 +806,100 @@ theorem evalB_foldFn_or (D : Dom) (f : Fold) (r : Row D) (e : BoolE) (es : List 
   · simp only [foldFn, evalB_foldl_or, foldl_or3, List.map_cons, or3_any3]
 
 
+/-! ## the constant normalisation of `IntCol == <float>` keeps the meaning -/
+
+theorem eval_coerceCmp (D : Dom) (r : Row D) (o : CmpOp) (l x : NumE) (b : BoolE)
+    (hl : WholeOk D l) (hx : WholeOk D x) (hc : coerceCmp o l x = some b) :
+    eval D r b = eval D r (E.cmp o l x) ∧ WholeOk D b := by
+  unfold coerceCmp at hc
+  split at hc
+  · split at hc
+    · injection hc with hc; subst hc
+      simp only [WholeOk] at hx
+      simp only [eval, WholeOk, and_self, and_true]
+      cases r _ <;> simp [lift2, (hx o _).1]
+    · simp at hc
+    · injection hc with hc; subst hc
+      simp only [WholeOk] at hl
+      simp only [eval, WholeOk, and_self, and_true]
+      cases r _ <;> simp [lift2, (hl o _).2]
+    · simp at hc
+    · injection hc with hc; subst hc; exact ⟨rfl, by simp only [WholeOk]; exact ⟨hl, hx⟩⟩
+  · injection hc with hc; subst hc; exact ⟨rfl, by simp only [WholeOk]; exact ⟨hl, hx⟩⟩
+
+/-- leaf: `coerce` is the identity -/
+macro "coerce_leaf" : tactic =>
+  `(tactic| (intro e' hw hc; simp only [coerce, Option.some.injEq] at hc; subst hc; exact ⟨rfl, hw⟩))
+
+/-- one recursive argument -/
+macro "coerce_un" x:ident ih:ident : tactic =>
+  `(tactic| (intro e' hw hc
+             simp only [WholeOk] at hw
+             cases h1 : coerce $x with
+             | none => simp [coerce, h1] at hc
+             | some x' =>
+               simp [coerce, h1] at hc; subst hc
+               have a := $ih _ hw h1
+               exact ⟨by simp only [eval, a.1], by simp only [WholeOk]; exact a.2⟩))
+
+/-- two recursive arguments -/
+macro "coerce_bin" l:ident x:ident ihl:ident ihx:ident : tactic =>
+  `(tactic| (intro e' hw hc
+             simp only [WholeOk] at hw
+             cases h1 : coerce $l with
+             | none => simp [coerce, h1] at hc
+             | some l' =>
+               cases h2 : coerce $x with
+               | none => simp [coerce, h1, h2] at hc
+               | some x' =>
+                 simp [coerce, h1, h2] at hc; subst hc
+                 have a := $ihl _ hw.1 h1
+                 have b := $ihx _ hw.2 h2
+                 exact ⟨by simp only [eval, a.1, b.1], by simp only [WholeOk]; exact ⟨a.2, b.2⟩⟩))
+
+theorem eval_coerce (D : Dom) (r : Row D) {s : Srt} (e : E s) :
+    ∀ e', WholeOk D e → coerce e = some e' → eval D r e' = eval D r e ∧ WholeOk D e' := by
+  induction e with
+  | col c => coerce_leaf
+  | rcol c => coerce_leaf
+  | const i => coerce_leaf
+  | fconst n i => coerce_leaf
+  | wconst n i k => coerce_leaf
+  | inil => coerce_leaf
+  | ar o l x ihl ihx => coerce_bin l x ihl ihx
+  | neg x ih => coerce_un x ih
+  | pos x ih => coerce_un x ih
+  | b2i x ih => coerce_un x ih
+  | cmp o l x ihl ihx =>
+    intro e' hw hc
+    simp only [WholeOk] at hw
+    cases h1 : coerce l with
+    | none => simp [coerce, h1] at hc
+    | some l' =>
+      cases h2 : coerce x with
+      | none => simp [coerce, h1, h2] at hc
+      | some x' =>
+        simp [coerce, h1, h2] at hc
+        have a := ihl _ hw.1 h1
+        have b := ihx _ hw.2 h2
+        have c := eval_coerceCmp D r o l' x' e' a.2 b.2 hc
+        exact ⟨by rw [c.1]; simp only [eval, a.1, b.1], c.2⟩
+  | andOp l x ihl ihx => coerce_bin l x ihl ihx
+  | orOp l x ihl ihx => coerce_bin l x ihl ihx
+  | andFn l x ihl ihx => coerce_bin l x ihl ihx
+  | orFn l x ihl ihx => coerce_bin l x ihl ihx
+  | notOp x ih => coerce_un x ih
+  | notFn x ih => coerce_un x ih
+  | isin l x ihl ihx => coerce_bin l x ihl ihx
+  | notin l x ihl ihx => coerce_bin l x ihl ihx
+  | isnull x ih => coerce_un x ih
+  | isnotnull x ih => coerce_un x ih
+  | eqNone x ih => coerce_un x ih
+  | neNone x ih => coerce_un x ih
+  | inull x ih => coerce_un x ih
+  | icons l x ihl ihx => coerce_bin l x ihl ihx
+
+
 /-! ## typed tokens are determined by the lexical stream -/
 
 theorem BinOp.ofSpell_spell (o : BinOp) : BinOp.ofSpell o.spell = some o := by
